@@ -117,6 +117,16 @@ CLAIMED["C14"]["text"] += (" Second tie: tools/ringtrans translates the current 
   "when the source leaves the translated fragment the tie is reported as unavailable in the evidence and the verdict rests on the differential execution.")
 CLAIMED["C14"]["tech"] += " + model regenerated from the source by a translator and proved equivalent"
 CLAIMED["C14"]["note"] += " Translation tie: translator tools/ringtrans and the GoMini semantics are trusted when its status is 'proved'."
+CLAIMED["C10"]["text"] += (" Second tie: tools/regtrans translates the methods of *Registry in the current actor/registry.go into terms of a small deep embedding "
+  "(coq/RegSrcSem.v: interleaving semantics at lock granularity in which an access to the map without the mutex, a visible operation inside a critical section or a mutex "
+  "still held at the end of a step is stuck, and the label of a critical section is derived from its reads/writes/deletes) on every run, and coq/RegSrcProofs.v is re-checked "
+  "against them: lock-step bisimulation with the model (sim_step, sim_reach, sim_run) and the transferred theorems C10_src_unique_live, C10_src_getpid_iff_registered, "
+  "C10_src_one_winner_at_the_end, C10_src_no_thread_blocks; when the source leaves the translated fragment or the proof no longer goes through the tie is reported as "
+  "unavailable in the evidence and the verdict rests on the replay of explored schedules.")
+CLAIMED["C10"]["tech"] += " + model regenerated from the source by a translator and proved bisimilar"
+CLAIMED["C10"]["note"] += " Translation tie: translator tools/regtrans and the LMini semantics (incl. the reduction of a disciplined critical section to one step) are trusted when its status is 'proved'."
+CLAIMED["C16"]["text"] += " Part internal_targets also lets several inbound streams hit one fresh stream reader at the same moment (what Remote.Start builds)."
+CLAIMED["C19"]["text"] += " The in-memory Remoter can encode a message after Send has returned, as the real stream writer does (class large_topology_late_joiner and the *_lazy_links classes)."
 CLAIMED["C12"]["text"] += (" Last sentence of C12: C12_lifecycle_events_published (the published lifecycle events of every run of the process model are exactly those "
   "the delivery stream calls for; dead letters only after Stopped; per payload delivered + dead-lettered = sent) with C12_oracle_sound, judged on the implementation's "
   "event stream by part lifecycle_events; the duplicate-id event by part duplicate_id_events (C10_duplicate_is_noop, C10_duplicate_child_is_noop).")
